@@ -463,6 +463,16 @@ def globals_for(case):
 
 def to_templates(case):
     f = _fields(case)
+    if f["fam"] in ("sel", "tset"):
+        # the C05 families bring their own template sets; the ones rendered through a main template (candidate
+        # lists of an include, a tuple assignment seen through {% import %}) are also items of the shared corpus,
+        # the others (select_template calls, module attributes) have no main template, like family "mod"
+        src, data, cands = extra_sources(case)
+        if "main" not in src:
+            return src, None, {}
+        if f["fam"] == "sel" and f["via"] == "inc-var":
+            data["cands"] = [data[SEL_OBJECTS[i][0]] if i in SEL_OBJECTS else i for i in cands]
+        return src, "main", data
     hsrc = helper_source(f["shape"])
     src = {"h": hsrc, "h2": H2_SRC, "boom": BOOM_SRC, "hm": INNER_MISSING_SRC}
     if f["fam"] == "mod":
@@ -486,6 +496,24 @@ def to_templates(case):
     return src, "main", data
 
 
+def bind_data(env, data):
+    """replace the TemplateRef / TemplateFromString markers of `data` (also inside lists) by templates of `env`;
+    one marker object becomes one template object wherever it occurs"""
+    memo = {}
+
+    def bind(v):
+        if isinstance(v, (TemplateRef, TemplateFromString)):
+            if id(v) not in memo:
+                memo[id(v)] = (env.get_template(v.name, globals=v.globals) if isinstance(v, TemplateRef)
+                               else env.from_string(v.source, globals=v.globals))
+            return memo[id(v)]
+        if isinstance(v, list):
+            return [bind(x) for x in v]
+        return v
+
+    return {k: bind(v) for k, v in data.items()}
+
+
 def build(case, env_kwargs=None):
     import jinja2
 
@@ -493,21 +521,15 @@ def build(case, env_kwargs=None):
     g = globals_for(case)
     env = jinja2.Environment(loader=jinja2.DictLoader(src), **(env_kwargs or {}))
     env.globals.update(g["env"])
-    # api.rst get_template: "globals: Extend the environment globals with these extra variables
-    # available for all renders of this template"; a cached template keeps them
-    h = env.get_template("h", globals=g["h"])
-    if _fields(case).get("target") == "lit-warm":
-        # docs "Import": imports are cached -- a default module that already exists must not change
-        # what a later include/import can see
-        str(h.module)
-    bound = {}
-    for k, v in data.items():
-        if isinstance(v, TemplateRef):
-            v = env.get_template(v.name, globals=v.globals)
-        elif isinstance(v, TemplateFromString):
-            v = env.from_string(v.source, globals=v.globals)
-        bound[k] = v
-    return env, main, bound, g
+    if "h" in src:
+        # api.rst get_template: "globals: Extend the environment globals with these extra variables
+        # available for all renders of this template"; a cached template keeps them
+        h = env.get_template("h", globals=g["h"])
+        if _fields(case).get("target") == "lit-warm":
+            # docs "Import": imports are cached -- a default module that already exists must not change
+            # what a later include/import can see
+            str(h.module)
+    return env, main, bind_data(env, data), g
 
 
 def _exc_name(e):
